@@ -59,6 +59,7 @@ def subclassify(rng, t, v, lk):
 
 class C06(PropBase):
     ID = "C06"
+    NEEDS_COLD = True
     REPLICAS = 2
     QUICK_RUNS = 2500
     THOROUGH_RUNS = 80000
@@ -72,6 +73,7 @@ class C06(PropBase):
         "of a second call, no mutable container shared with v or with any earlier output of the run, v unchanged. Non-trivial: "
         "the same (T, v) was marshalled earlier in the run and its result was deep-mutated since, or a fault fired before, or a "
         "memo written earlier was read; distinct = distinct (operation digest, pre-state signature) pairs."
+        ' Under the swept exhaustion fault the same object is first offered from every stack depth at which the conversion cannot complete.'
     )
     ASSUMPTIONS = ["Any / unparameterised containers are outside the statement (their contents are passed through by contract)"]
 
@@ -91,6 +93,11 @@ class C06(PropBase):
                 if rng.random() < 0.5:
                     v = subclassify(rng, t, v, lk)
                 vals.append(v)
+            if "twin" in sw:
+                # values equal to a pooled one but written differently (Decimal exponent, equal instant at
+                # another offset, 0.0 / -0.0): "the same on every call" must not mean "the same as for an
+                # equal value seen earlier"
+                vals += [tw for tw in (hist.value_twin(rng, x, numeric=False) for x in list(vals)) if tw is not None]
             pool.append((t, vals))
         steps = []
         n = rng.randint(1, 14 if tier == "quick" else 40)
@@ -116,6 +123,8 @@ class C06(PropBase):
             step = {"op": "marshal", "t": t, "v": copy.deepcopy(v), "mod": rng.choice(mods)}
             if "stack" in sw and rng.random() < 0.2:
                 step["depth"] = rng.randint(1, 40)
+            if "twin" in sw and rng.random() < 0.6:
+                step["cold"] = True  # compared with the same call in a pristine process
             if "exhaust_scan" in sw and rng.random() < 0.25:
                 # the same object is first offered from every stack depth at which the conversion
                 # cannot complete (RecursionError one frame further in each time)
@@ -169,7 +178,16 @@ class C06(PropBase):
         except (TypeError, ValueError) as e:
             sess.violation("json-rejects", i, {"t": model.tsrc(step["t"]), "exc": str(e)[:200]}, sig=f"json-rejects:{shape}")
             return
-        # same on every call
+        # same on every call - including the first call of a process that has seen nothing else
+        if step.get("cold") and not sess.is_cold:
+            cold = sess.cold_exec({k: x for k, x in step.items() if k not in ("scan", "cold")})
+            if "error" in cold:
+                raise RuntimeError(f"harness: cold execution failed: {cold['error']}")
+            sess.probes["compared_with_cold_process"] += 1
+            if cold.get("trepr") == sess.trepr(step) and cold["canon"] != out.canon():
+                sess.violation("differs-from-cold-process", i, {"t": model.tsrc(step["t"]), "here": _s(out.canon()), "cold": _s(cold["canon"])},
+                               sig=f"differs-from-cold:{shape}")
+                return
         again = sess.guarded(sess.call, step, typelib.marshal, v, t=sess.T(step))
         if not again.ok or model.canon(again.value) != model.canon(res):
             sess.violation("second-call-differs", i, {"t": model.tsrc(step["t"]), "first": _s(model.canon(res)), "second": repr(again)[:200]},
